@@ -178,7 +178,8 @@ fn case(tier: Tier, case_no: usize, rng: &mut Rng, rep: &mut Report) {
             return;
         }
     };
-    let n = if rng.chance(0.15) { rng.urange(1, 5) } else { rng.urange(5, if tier.thorough { 600 } else { 150 }) };
+    // small batches matter for the file's first lines (a file holding a single record when the next run starts)
+    let n = if rng.chance(0.15) { if rng.chance(0.4) { 1 } else { rng.urange(1, 5) } } else { rng.urange(5, if tier.thorough { 600 } else { 150 }) };
     // valid and failing queries, no non-object queries (they carry no qid to pair rows with)
     let batch: Vec<Value> = gen_batch(rng, &spec, n, 0.12, &format!("s{case_no}q")).into_iter().map(|b| b.0).filter(|q| q.is_object()).collect();
     // free-text field echoed in the request: commas, quotes, backslashes, line breaks, tabs, non-ASCII
@@ -221,7 +222,7 @@ fn case(tier: Tier, case_no: usize, rng: &mut Rng, rep: &mut Report) {
     for r in &reference {
         ref_by_key.entry(key_of(r)).or_default().push(r.clone());
     }
-    let repeats = rng.urange(1, 3);
+    let repeats = if batch.len() <= 2 { rng.urange(2, 3) } else { rng.urange(1, 3) };
     let mut expected_rows_total = 0usize;
     let mut returned_all: Vec<Value> = vec![];
     let mut all_ok = true;
